@@ -591,8 +591,13 @@ func VH_C06_EmptyRepo() {
 	}
 	st := NewDir(conf)
 	r := vhRepo(st, "a")
-	scenario := vh.Choice("scenario", 4)
+	scenario := vh.Choice("scenario", 5)
 	switch scenario {
+	case 4: // a complete untagged image: the pass itself empties the index
+		vhPutBlob(r, []byte("{}"))
+		img := []byte(`{"schemaVersion":2,"mediaType":"application/vnd.oci.image.manifest.v1+json","config":{"mediaType":"application/vnd.oci.empty.v1+json","digest":"sha256:44136fa355b3678a1146ad16f7e8649e94fb4fc21fe77e8310c060f61caaff8a","size":2},"layers":[]}`)
+		d := vhPutBlob(r, img)
+		_ = r.IndexInsert(types.Descriptor{MediaType: types.MediaTypeOCI1Manifest, Digest: d, Size: int64(len(img))})
 	case 0: // only (possibly young) blobs, no manifest
 		vhPutBlob(r, []byte("blob"))
 	case 1: // nested repository a/b exists
@@ -614,7 +619,7 @@ func VH_C06_EmptyRepo() {
 	}
 	r.Done()
 	vh.Sched()
-	vh.Tag("scenario", []string{"only-blobs", "nested-repository", "sha384-blob", "cancelled-upload"}[scenario])
+	vh.Tag("scenario", []string{"only-blobs", "nested-repository", "sha384-blob", "cancelled-upload", "untagged-image"}[scenario])
 	_ = r.gc()
 	dr := r.(*dirRepo)
 	p := vhRoot + "/a"
